@@ -23,6 +23,9 @@ pub struct Screened {
     /// expressions whose sequential evaluation panics on the unchanged tree (a totality matter, C04); they are
     /// kept as a *fault*: an evaluation that unwinds half-way must not change what later evaluations return
     pub panicking_exprs: Vec<String>,
+    /// expressions whose state changes (almost) every day: 12 intervals need at most 40 `schedule_at` calls.
+    /// Only these are used for long streams (hundreds of intervals).
+    pub dense_exprs: Vec<String>,
     pub countries: Vec<String>,
     /// pairs of places ~20 m apart on opposite sides of a time-zone border (1e-4 degrees), found by
     /// walking along lines between cities with the library's own zone lookup
@@ -38,6 +41,7 @@ pub struct Pools {
     pub easter_exprs: Vec<String>,
     pub sun_exprs: Vec<String>,
     pub panicking_exprs: Vec<String>,
+    pub dense_exprs: Vec<String>,
     pub invalid_exprs: Vec<String>,
     pub excluded: Vec<(String, String)>,
     pub countries: Vec<String>,
@@ -274,8 +278,19 @@ impl Pools {
                 spacing_variants.push((a, b));
             }
         }
+        // dense expressions, by the deterministic probe counter
+        let mut dense_exprs = Vec::new();
+        for e in &exprs {
+            let before = oh_verif_rt::probe_hits("schedule_at:entry");
+            oh_verif_rt::reset_work_budget();
+            let r = eval::eval(&Op::Iter { e: e.clone(), c: Ctx::Default, t: insts[0], n: 12 }, None, None);
+            let calls = oh_verif_rt::probe_hits("schedule_at:entry") - before;
+            if !r.starts_with("PANIC") && calls <= 40 {
+                dense_exprs.push(e.clone());
+            }
+        }
         let panicking_exprs: Vec<String> = excluded.iter().filter(|(_, why)| why.starts_with("sequential evaluation panics")).map(|(e, _)| e.clone()).collect();
-        Screened { exprs, holiday_exprs, easter_exprs, excluded, panicking_exprs, countries, border_pairs: find_border_pairs(), spacing_variants }
+        Screened { exprs, holiday_exprs, easter_exprs, excluded, panicking_exprs, dense_exprs, countries, border_pairs: find_border_pairs(), spacing_variants }
     }
 
     pub fn from_screened(s: Screened) -> Pools {
@@ -285,6 +300,7 @@ impl Pools {
             easter_exprs: s.easter_exprs,
             sun_exprs: SUN_EXPRS.iter().map(|s| s.to_string()).collect(),
             panicking_exprs: s.panicking_exprs,
+            dense_exprs: s.dense_exprs,
             invalid_exprs: INVALID.iter().map(|s| s.to_string()).collect(),
             excluded: s.excluded,
             countries: s.countries,
